@@ -116,6 +116,8 @@ def run(tier, seed):
     gens = [("routing", consts(WithHist="TRUE", Spells=S4 if thorough else S2, Lean="TRUE", Kinds='{"drop","unique","index"}')),
             ("effects", consts(WithHist="TRUE", Universe=U1, MaxCreates=1, MaxStmts=3, Spells=SS, ColSpells='{"same","other"}',
                                CNames='{"","k1"}')),
+            ("effects next to a LIKE table", consts(WithHist="TRUE", Universe=U1, MaxCreates=1, MaxStmts=3, Spells=SS, CNames='{""}', Others='{"liketable"}',
+                                                    Kinds='{"rename","unique","default","addcol","drop"}')),
             ("sequences", consts(WithHist="TRUE", Universe=U1, MaxCreates=1, MaxStmts=4, Spells=SS,
                                  Kinds='{"addcol","drop","rename","modify"}'))]
     if thorough:
